@@ -94,16 +94,17 @@ def _alarm(signum, frame):
 
 class watchdog(object):
     """per-case watchdog; termination is part of several properties.  The budget is CPU time of this process
-    (ITIMER_PROF), so a loaded machine cannot turn a terminating case into a timeout; a wall-clock alarm at 20x
-    the budget is the backstop for a case that blocks without consuming CPU."""
+    (ITIMER_PROF), so a loaded or swapping machine cannot turn a terminating case into a timeout; a wall-clock alarm
+    (15 min or 120x the budget) is the backstop for a case that blocks without consuming CPU."""
     def __init__(self, seconds=5):
-        self.s = seconds
+        # budgets are generous (x4): a case that really loops is still found, memory pressure or page-fault storms are not
+        self.s = seconds * int(os.environ.get('VERIF_WATCHDOG_SCALE', '4'))
 
     def __enter__(self):
         self.old = signal.signal(signal.SIGALRM, _alarm)
         self.oldp = signal.signal(signal.SIGPROF, _alarm)
         signal.setitimer(signal.ITIMER_PROF, self.s)
-        signal.alarm(self.s * 20)
+        signal.alarm(max(900, self.s * 120))      # wall-clock backstop only for a call that blocks without using CPU
 
     def __exit__(self, *a):
         signal.setitimer(signal.ITIMER_PROF, 0)
